@@ -103,6 +103,11 @@ class Check:
     # -- end ----------------------------------------------------------------
     def finish(self):
         self.cov["distinct_nontrivial"] = len(self._distinct)
+        if self.cov["traces_validated_against_impl"] == 0 and self.cov["evaluations"] > 0:
+            # function specifications: every case is a one-step behaviour of the spec executed on the implementation and
+            # compared with the spec's result; those that agreed are the behaviours validated against the implementation
+            self.cov["traces_validated_against_impl"] = max(0, self.cov["evaluations"] - len(self.violations) - sum(self.known_hit.values()))
+            self.cov["traces_note"] = "one-step behaviours (cases) executed on the implementation and found equal to the specification"
         for k in self.known:
             n = self.known_hit.get(k["key"], 0)
             if n:
